@@ -11,6 +11,7 @@ import Driver.PipeMode
 import Driver.ProofMode
 import Driver.FrontMode
 import Driver.StoreMode
+import Driver.QuoteMode
 /-! `osmt-model <mode> <file>`: line-protocol driver around the executable models and kernels. -/
 def main (args : List String) : IO UInt32 := do
   match args with
@@ -72,6 +73,10 @@ def main (args : List String) : IO UInt32 := do
   | ["store", path] =>
     let txt ← IO.FS.readFile path
     for l in Driver.runStore (txt.splitOn "\n") do IO.println l
+    return 0
+  | ["quote", path] =>
+    let txt ← IO.FS.readFile path
+    for l in Driver.runQuote (txt.splitOn "\n") do IO.println l
     return 0
   | ["fk", path] =>
     let txt ← IO.FS.readFile path
